@@ -3,10 +3,12 @@ package drv
 import (
 	"context"
 	"fmt"
+	"math/rand"
 	"runtime"
 	"sort"
 	"strings"
 	"sync"
+	"sync/atomic"
 	"testing/synctest"
 	"time"
 
@@ -43,6 +45,10 @@ type Session struct {
 	served   bool
 	nInvoked int
 	bubble   string
+	free     atomic.Bool       // free-running: applications run their scripts on their own, no stepping
+	scripts  map[int]RPCScript // free-running: the scripts by RPC number
+	rng      *rand.Rand        // free-running: delay injection at yield points
+	rngMu    sync.Mutex
 	sfailed  map[string]bool // "rpc/end": a send failed
 	untagged []int           // caller RPCs started without any metadata (no x-rpc tag), oldest first
 }
@@ -131,6 +137,9 @@ func (s *Session) emit(ev string, f tr.E) {
 }
 
 func (s *Session) sendFailed(rpc int, end string) bool {
+	if s.Cfg.KeepSending {
+		return false
+	}
 	s.mu.Lock()
 	defer s.mu.Unlock()
 	return s.sfailed[fmt.Sprintf("%d/%s", rpc, end)]
@@ -194,6 +203,23 @@ func (s *Session) yieldHook(point string, id int64) {
 		case <-s.quit:
 		}
 		s.emit("unpark", tr.E{"point": point, "sid": id})
+		return
+	}
+	if s.free.Load() {
+		// randomised delay injection: widen race windows
+		s.rngMu.Lock()
+		x := s.rng.Intn(100)
+		s.rngMu.Unlock()
+		// (no sleeping: a goroutine may be inside one of the library's critical sections here, and
+		// a bubble whose other goroutines wait on that mutex can never advance its clock)
+		switch {
+		case x < 25:
+			runtime.Gosched()
+		case x < 35:
+			for k := 0; k < x; k++ {
+				runtime.Gosched()
+			}
+		}
 		return
 	}
 	if s.logsHook(point) {
@@ -460,8 +486,12 @@ func (s *Session) openRawNetClient() {
 		mode = s.Cfg.RawSrv
 	}
 	ctx := s.tunCtx
-	if mode == "neg" {
+	switch mode {
+	case "neg":
 		ctx = metadata.AppendToOutgoingContext(ctx, "grpctunnel-negotiate", "on")
+	case "off", "ON", "empty":
+		// the header is present but does not say "on": this peer does not negotiate
+		ctx = metadata.AppendToOutgoingContext(ctx, "grpctunnel-negotiate", map[string]string{"off": "off", "ON": "ON", "empty": ""}[mode])
 	}
 	if s.Cfg.Dir == "fwd" {
 		car := sim.New(ctx, sim.Options{T: 1, Cap: s.Cfg.Cap, Auto: s.Cfg.Auto, Log: s.Log, Yield: s.carYield, ServerCtx: withInterceptorValue})
